@@ -151,7 +151,7 @@ Proof.
   - reflexivity.
   - assert (H3 : es_active st3 = r_name current) by (unfold st3; rewrite manage_status_active; reflexivity).
     case_eq active; intros Ea.
-    + destruct (Hact Ea) as [_ [_ [rep [nb [_ [_ [[_ ->] | [_ [sel [_ ->]]]]]]]]]]; [exact H3 | exact H3].
+    + destruct (Hact Ea) as [_ [_ [rep [nb [_ [_ [[_ ->] | [_ [sel [en [_ ->]]]]]]]]]]]; [exact H3 | exact H3].
     + destruct (Hinact Ea) as [-> _]. exact H3.
 Qed.
 
